@@ -14,6 +14,7 @@ import time
 from .. import config, lib, runner
 
 ENGINES = {
+    'E1': 'vf.engines.e1',
     'E2': 'vf.engines.e2',
     'E3': 'vf.engines.e3',
 }
